@@ -380,7 +380,7 @@ def run_sequence(rec, rng, cid):
                 "history": hist}, limit=2)
 
 
-def run_shard(rec, tier, seed, shard, nshards):
+def _run_shard(rec, tier, seed, shard, nshards):
     install_audit()
     for i in range(N_SEQ[tier]):
         run_sequence(rec, core.case_rng(seed, ID, shard, i), [shard, i])
@@ -390,3 +390,11 @@ def replay(rec, case):
     install_audit()
     cid = case["case"]["id"]
     run_sequence(rec, core.case_rng(case["seed"], ID, cid[0], cid[1]), cid)
+
+
+def run_shard(rec, tier, seed, shard, nshards):
+    state0 = core.library_state()
+    try:
+        _run_shard(rec, tier, seed, shard, nshards)
+    finally:
+        core.check_library_state(rec, state0, {"id": [shard, -1]})
